@@ -20,6 +20,17 @@
 //!        <enabled> <connected> <scidPrivacy> <alias> <cpMin> <feeProp> <feeBase> <delta> <hasPrev> <pProp> <pBase> <pDelta>
 //!        | phantom | intercept | unknown)
 //!
+//! model `c02close`: the forwarder FORCE-CLOSES the outbound channel in the middle of the downstream commitment dance.  4 real
+//!   nodes A–B–C and E–B (legacy channels), several forwarded HTLCs in different states on B–C (holding cell, LocalAnnounced
+//!   sent / only in a HELD commitment, Committed, fulfilled-not-yet-revoked), with or without an RAA blocker (the inbound
+//!   edge's preimage update kept InProgress), random schedules, the close at a random point by
+//!   force_close_broadcasting_latest_txn / an `error` message from C / an invalid `update_fulfill_htlc` from C.  Per forwarded
+//!   HTLC on B–C at the instant of the close: the state `list_channels` reports, whether its update_add_htlc ever left B,
+//!   whether C's latest commitment and the commitment B broadcasts contain it, and whether B failed it backwards upstream
+//!   before anything confirmed — validated against the GENERATED selection of `force_shutdown` and the model's invariant.
+//!   Then one of the two commitments is mined, C claims on chain with the preimages it has, and B's outcome is accounted.
+//!   op:  fc <hc|la|committed|rm-ok|rm-fail> <heldExists> <sent> <cHas> <bHas> <drop|keep>  →  ok
+//!
 //! model `c02fwd`: ONE forwarded HTLC, B with Completed or InProgress persistence, random schedules (every
 //!   message delivered separately, completions in any order, C claims or fails, B crashes and restarts — with the
 //!   in-flight monitor updates lost or kept — and reconnects).  The observed trace is turned into FwdProto op
@@ -35,6 +46,9 @@ use lightning::ln::channelmanager::{PaymentId, MIN_CLTV_EXPIRY_DELTA};
 use lightning::ln::onion_utils::create_payment_onion;
 use lightning::ln::verif_hooks as vh;
 use lightning::sign::{NodeSigner, Recipient};
+use lightning::ln::channel_state::OutboundHTLCStateDetails;
+use lightning::ln::msgs::{self, ChannelMessageHandler};
+use bitcoin::Transaction;
 use lightning::util::scid_utils::{block_from_scid, scid_from_parts, tx_index_from_scid, vout_from_scid};
 use lightning::ln::functional_test_utils::*;
 use lightning::ln::outbound_payment::RecipientOnionFields;
@@ -700,6 +714,276 @@ fn fwd_scenario_inner(net: &mut Net, rng: &mut Rng, sc: usize, thorough: bool, b
 	Ok(out)
 }
 
+// =================================================================================================
+// c02close
+// =================================================================================================
+const E: usize = 3;
+
+struct Fwd { hash: lightning::types::payment::PaymentHash, preimage: lightning::types::payment::PaymentPreimage, src: usize, up_chan: usize, up_id: Option<u64>, in_amt: u64, out_amt: u64, pay: usize }
+
+struct Snap { k: usize, seen: &'static str, sent: bool, c_has: bool, b_has: bool }
+
+/// src -> B -> C with a hand-built route (as `send_custom`, any source)
+fn send_from(net: &mut Net, src: usize, c_in: usize, c_out: usize, amt: u64, fee_b: u64, delta_b: u32, final_delta: u32, n: u64) -> Result<Fwd, String> {
+	let mut pre = [0x7cu8; 32]; pre[..8].copy_from_slice(&n.to_be_bytes());
+	let preimage = lightning::types::payment::PaymentPreimage(pre);
+	let hash = lightning::types::payment::PaymentHash({ use bitcoin::hashes::{sha256, Hash}; sha256::Hash::hash(&pre).to_byte_array() });
+	let secret = net.nodes[C].node.create_inbound_payment_for_hash(hash, Some(amt), 7200, None, None).map_err(|_| "create_inbound_payment_for_hash".to_string())?.0;
+	let hops = vec![
+		RouteHop { pubkey: net.ids[B], node_features: NodeFeatures::empty(), short_channel_id: net.chans[c_in].3, channel_features: ChannelFeatures::empty(), fee_msat: fee_b, cltv_expiry_delta: delta_b, maybe_announced_channel: true },
+		RouteHop { pubkey: net.ids[C], node_features: NodeFeatures::empty(), short_channel_id: net.chans[c_out].3, channel_features: ChannelFeatures::empty(), fee_msat: amt, cltv_expiry_delta: final_delta, maybe_announced_channel: true },
+	];
+	let params = PaymentParameters::from_node_id(net.ids[C], final_delta).with_max_total_cltv_expiry_delta(u32::MAX / 2);
+	let mut route_params = RouteParameters::from_payment_params_and_value(params, amt);
+	route_params.max_total_routing_fee_msat = None;
+	let route = Route { paths: vec![Path { hops, blinded_tail: None }], route_params };
+	let id = PaymentId(hash.0);
+	let pos = net.trace.len();
+	let r = net.nodes[src].node.send_payment_with_route(route, hash, RecipientOnionFields::secret_only(secret, amt), id);
+	net.pump(src);
+	if let Err(e) = r { return Err(format!("{:?}", e).chars().take(80).collect()); }
+	let up_id = net.trace[pos..].iter().find_map(|o| if let Obs::Msg { from, to: B, kind: "add", amt: a, htlc_id, .. } = o { if *from == src && *a == amt + fee_b { Some(*htlc_id) } else { None } } else { None });
+	net.pays.push(PendingPay { hash, preimage, secret, amt, id, from: src, to: C });
+	Ok(Fwd { hash, preimage, src, up_chan: c_in, up_id, in_amt: amt + fee_b, out_amt: amt, pay: net.pays.len() - 1 })
+}
+
+fn commitment_has(tx: &Transaction, amt_msat: u64) -> bool { tx.output.iter().any(|o| o.value.to_sat() == amt_msat / 1000) }
+
+fn latest_holder_commitment(net: &Net, node: usize, chan: usize) -> Option<Transaction> {
+	let m = net.nodes[node].chain_monitor.chain_monitor.get_monitor(net.chans[chan].2).ok()?;
+	m.unsafe_get_latest_holder_commitment_txn(&net.nodes[node].logger).into_iter().next()
+}
+
+fn close_scenario(rng: &mut Rng, sc: usize, thorough: bool) -> Result<FwdOut, String> {
+	let base = *rng.pick(&[0u32, 1000, 2500]);
+	let prop = *rng.pick(&[0u32, 100, 5000]);
+	let delta = *rng.pick(&[48u16, 72, 144]);
+	let mk = |b: bool| { let mut c = test_legacy_channel_config(); if b { c.channel_config.forwarding_fee_base_msat = base; c.channel_config.forwarding_fee_proportional_millionths = prop; c.channel_config.cltv_expiry_delta = delta; } Some(c) };
+	let mut net = Net::new(4, vec![mk(false), mk(true), mk(false), mk(false)]);
+	let r = guarded(std::panic::AssertUnwindSafe(|| close_scenario_inner(&mut net, rng, sc, thorough, base, prop, delta)));
+	if !matches!(r, Ok(Ok(_))) && std::env::var("VERIF_TRACE").map(|v| v == "all" || v == sc.to_string()).unwrap_or(false) {
+		eprintln!("=== close scenario {} ended with {:?}; trace tail:", sc, r.as_ref().map(|x| x.as_ref().err()));
+		let n = net.trace.len();
+		for o in &net.trace[n.saturating_sub(60)..] { if !matches!(o, Obs::Balance { .. }) { eprintln!("  {}", fmt_obs(o)); } }
+	}
+	std::mem::forget(net);
+	match r { Ok(x) => x, Err(p) => Err(format!("PANIC {}", p)) }
+}
+
+fn close_scenario_inner(net: &mut Net, rng: &mut Rng, sc: usize, thorough: bool, base: u32, prop: u32, delta: u16) -> Result<FwdOut, String> {
+	let mut out = FwdOut { lines: vec![], oracle: vec![], classes: vec![] };
+	let c0 = net.open(A, B, 1_000_000, 400_000_000);
+	let c1 = net.open(B, C, 1_000_000, 400_000_000);
+	let c2 = net.open(E, B, 1_000_000, 400_000_000);
+	static COUNTER: std::sync::atomic::AtomicU64 = std::sync::atomic::AtomicU64::new(1);
+	let mut fwds: Vec<Fwd> = vec![];
+	let mut next_amt = { let mut k = 0u64; move |rng: &mut Rng| { k += 1; 20_000_000 + k * 1_000_000 + rng.below(900) * 1000 } };
+	let fee_of = |amt: u64| (amt as u128 * prop as u128 / 1_000_000 + base as u128) as u64;
+	let up_bal = |net: &Net| -> u64 { [c0, c2].iter().map(|c| { let (a, b, cid, _) = net.chans[*c]; let peer = if a == B { b } else { a }; vh::channel_value_to_self_msat(net.nodes[B].node, &net.ids[peer], &cid).unwrap_or(0) }).sum() };
+	let up_before = up_bal(net);
+	// ---- base HTLCs: fully committed on both links, claimable at C --------------------------------------------------
+	let n_base = 1 + rng.below(2) as usize;
+	for _ in 0..n_base {
+		let amt = next_amt(rng);
+		let f = send_from(net, A, c0, c1, amt, fee_of(amt), delta as u32, 60 + rng.below(30) as u32, COUNTER.fetch_add(1, std::sync::atomic::Ordering::Relaxed))?;
+		net.settle(12);
+		if !net.claimable[C].iter().any(|c| c.0 == f.hash) { return Err("base forward did not reach C".into()); }
+		fwds.push(f);
+	}
+	let p0 = net.trace.len();
+	// ---- schedule ------------------------------------------------------------------------------------------------
+	let hold = rng.chance(2, 3);            // RAA blocker: the inbound edge's preimage update (and everything behind it on A–B) stays InProgress
+	let async_b = hold || rng.chance(1, 3);
+	if async_b { net.set_mode(B, true); }
+	let max_e = 1 + rng.below(2) as usize; let mut n_e = 0;
+	let max_claims = 1 + rng.below(2) as usize; let mut claimed: Vec<usize> = vec![];      // indices into fwds C has claimed
+	let t_close = rng.below(if thorough { 45 } else { 36 }) as usize;
+	let mut did_claim_first = false;
+	let mut injected_early = false;
+	for step in 0..t_close {
+		let _ = step;
+		// the upstream links are not under test: their messages flow at once; B's monitor updates complete promptly except
+		// (blocker mode) everything on the inbound edge A–B
+		for _ in 0..4 {
+			let mut any = false;
+			if rng.chance(9, 10) { for c in [c0, c1, c2] { if hold && c == c0 { continue; } for id in net.pending_updates(B, c) { net.complete(B, c, id); any = true; } } }
+			for l in [(A, B), (B, A), (E, B), (B, E)] { while net.queued(l.0, l.1) > 0 { net.deliver(l.0, l.1); any = true; } }
+			for i in [A, E] { net.process_events(i); }
+			if !any { break; }
+		}
+		// in blocker mode an early forward from E is queued at B (it reaches B–C whenever B next processes its forwards) and C
+		// claims a base HTLC (otherwise there is nothing to block on)
+		if hold && !injected_early { injected_early = true; if rng.chance(3, 4) && n_e < max_e { n_e += 1; let amt = next_amt(rng);
+			if let Ok(f) = send_from(net, E, c2, c1, amt, fee_of(amt), delta as u32, 60 + rng.below(30) as u32, COUNTER.fetch_add(1, std::sync::atomic::Ordering::Relaxed)) { fwds.push(f); } continue; } }
+		if hold && !did_claim_first { did_claim_first = true; let k = rng.below(n_base as u64) as usize; net.claimable[C].retain(|c| c.0 != fwds[k].hash); net.claim(fwds[k].pay); net.process_events(C); claimed.push(k); continue; }
+		let b_waits = vh::channel_awaiting_remote_revoke(net.nodes[B].node, &net.ids[C], &net.chans[c1].2).unwrap_or(false);
+		let roll = if net.nodes[B].node.needs_pending_htlc_processing() && (b_waits || hold) && rng.chance(1, 2) { 10 } else { rng.below(20) };
+		match roll {
+			0..=8 => {
+				let q: Vec<(usize, usize)> = [(B, C), (C, B)].iter().cloned().filter(|l| net.queued(l.0, l.1) > 0).collect();
+				if !q.is_empty() { let (i, j) = *rng.pick(&q); net.deliver(i, j); }
+			},
+			9..=11 => { net.forward(B); if rng.chance(1, 2) { net.process_events(B); } },
+			12 | 13 => { net.process_events(C); net.forward(C); net.process_events(C); },
+			14 | 15 => {
+				if n_e < max_e {
+					n_e += 1;
+					let amt = next_amt(rng);
+					let (src, cin) = if hold || rng.chance(2, 3) { (E, c2) } else { (A, c0) };
+					if let Ok(f) = send_from(net, src, cin, c1, amt, fee_of(amt), delta as u32, 60 + rng.below(30) as u32, COUNTER.fetch_add(1, std::sync::atomic::Ordering::Relaxed)) { fwds.push(f); }
+				}
+			},
+			16 | 17 => {
+				if claimed.len() < max_claims {
+					let cands: Vec<usize> = (0..fwds.len()).filter(|k| !claimed.contains(k) && net.claimable[C].iter().any(|c| c.0 == fwds[*k].hash)).collect();
+					if !cands.is_empty() { let k = *rng.pick(&cands); net.claimable[C].retain(|c| c.0 != fwds[k].hash); net.claim(fwds[k].pay); net.process_events(C); claimed.push(k); }
+				}
+			},
+			_ => { net.process_events(B); },
+		}
+	}
+	// ---- the instant of the close: what can be read off the real nodes ------------------------------------------------
+	let det = net.nodes[B].node.list_channels().into_iter().find(|c| c.channel_id == net.chans[c1].2).ok_or("outbound channel gone before the close")?;
+	let b_commit = latest_holder_commitment(net, B, c1).ok_or("no holder commitment at B")?;
+	let c_commit = latest_holder_commitment(net, C, c1).ok_or("no holder commitment at C")?;
+	// "sent": B released the update_add_htlc, or at least handed a counterparty commitment listing the HTLC to chain::Watch (the
+	// ChannelMonitor knows it; with an InProgress persist the messages are merely withheld).  Otherwise the only commitment
+	// listing a LocalAnnounced HTLC is HELD in the channel's blocked_monitor_updates.
+	let was_sent = |net: &Net, f: &Fwd| net.trace.iter().any(|o| match o {
+		Obs::Msg { from: B, to: C, kind: "add", amt, .. } => *amt == f.out_amt,
+		Obs::Update { node: B, chan, cp_commit: Some((_, _, _, htlcs)), .. } => *chan == c1 && htlcs.iter().any(|h| h.1 == f.out_amt),
+		_ => false });
+	let held_exists = det.pending_outbound_htlcs.iter().any(|h| h.htlc_id.is_some() && h.state == Some(OutboundHTLCStateDetails::AwaitingRemoteRevokeToAdd) && !fwds.iter().any(|f| f.hash == h.payment_hash && was_sent(net, f)));
+	let mut snaps: Vec<Snap> = vec![];
+	for (k, f) in fwds.iter().enumerate() {
+		if let Some(h) = det.pending_outbound_htlcs.iter().find(|h| h.payment_hash == f.hash) {
+			let seen = match (h.htlc_id, &h.state) { (None, _) => "hc", (_, Some(OutboundHTLCStateDetails::AwaitingRemoteRevokeToAdd)) => "la", (_, Some(OutboundHTLCStateDetails::Committed)) => "committed",
+				(_, Some(OutboundHTLCStateDetails::AwaitingRemoteRevokeToRemoveSuccess)) => "rm-ok", (_, Some(OutboundHTLCStateDetails::AwaitingRemoteRevokeToRemoveFailure)) => "rm-fail", _ => continue };
+			snaps.push(Snap { k, seen, sent: was_sent(net, f), c_has: commitment_has(&c_commit, f.out_amt), b_has: commitment_has(&b_commit, f.out_amt) });
+		}
+	}
+	let variant = rng.below(3);
+	let close_pos = net.trace.len();
+	let bcast_before = net.nodes[B].tx_broadcaster.txn_broadcasted.lock().unwrap().len();
+	match variant {
+		0 => { net.nodes[B].node.force_close_broadcasting_latest_txn(&net.chans[c1].2, &net.ids[C], "verif".to_string()).map_err(|e| format!("force close: {:?}", e))?; },
+		1 => { net.nodes[B].node.handle_error(net.ids[C], &msgs::ErrorMessage { channel_id: net.chans[c1].2, data: "internal error".to_string() }); },
+		_ => { net.nodes[B].node.handle_update_fulfill_htlc(net.ids[C], msgs::UpdateFulfillHTLC { channel_id: net.chans[c1].2, htlc_id: 7_777, payment_preimage: lightning::types::payment::PaymentPreimage([9; 32]), attribution_data: None }); },
+	}
+	let vname = ["force_close_broadcasting_latest_txn", "error message from the next hop", "invalid update_fulfill_htlc from the next hop"][variant as usize];
+	net.pump(B);
+	if net.nodes[B].node.list_channels().iter().any(|c| c.channel_id == net.chans[c1].2) { return Err("outbound channel still open after the close".into()); }
+	// B's own bookkeeping runs; every monitor update completes; the upstream links settle; NOTHING is mined and C hears nothing yet
+	let c_learns = rng.chance(1, 2);
+	let held_bc: Vec<Wire> = net.q.remove(&(B, C)).map(|q| q.into_iter().collect()).unwrap_or_default();
+	net.q.remove(&(C, B));
+	for _ in 0..30 {
+		let mut any = false;
+		for c in [c0, c1, c2] { for id in net.pending_updates(B, c) { net.complete(B, c, id); any = true; } }
+		if !any && net.in_progress[B] { net.set_mode(B, false); }
+		for l in [(A, B), (B, A), (E, B), (B, E)] { while net.queued(l.0, l.1) > 0 { net.deliver(l.0, l.1); any = true; } }
+		for i in [A, B, E] { if net.nodes[i].node.needs_pending_htlc_processing() { net.forward(i); any = true; } let before = net.trace.len(); net.process_events(i); if net.trace.len() > before { any = true; } }
+		net.q.remove(&(B, C)); net.q.remove(&(C, B));
+		if !any { break; }
+	}
+	let up_msg = |net: &Net, f: &Fwd, from_pos: usize, kinds: &[&str]| -> bool {
+		// the upstream htlc id: the add may have left the sender later than the send call (its own holding cell)
+		let up_id = f.up_id.or_else(|| net.trace.iter().find_map(|o| if let Obs::Msg { from, to: B, kind: "add", amt, htlc_id, .. } = o { if *from == f.src && *amt == f.in_amt { Some(*htlc_id) } else { None } } else { None }));
+		net.trace[from_pos..].iter().any(|o| matches!(o, Obs::Msg { from: B, to, kind, chan, htlc_id, .. } if *to == f.src && *chan == f.up_chan && Some(*htlc_id) == up_id && up_id.is_some() && kinds.contains(kind)))
+	};
+	for sn in &snaps {
+		let f = &fwds[sn.k];
+		let dropped = up_msg(net, f, close_pos, &["fail", "malformed"]);
+		// ---- oracle (a): a forwarded HTLC is failed backwards only once the next hop can no longer claim it
+		if dropped && (sn.c_has || sn.b_has) {
+			out.oracle.push(format!("close scenario {}: forwarder failed HTLC of {} msat (state {}, update_add_htlc sent: {}) backwards upstream at the force-close ({}) although downstream's broadcastable commitment still contains it (C's latest commitment: {}, the commitment B broadcasts: {}); held counterparty-commitment update: {}, RAA blocker: {}, HTLCs on the channel: {:?}",
+				sc, f.out_amt, sn.seen, sn.sent, vname, sn.c_has, sn.b_has, held_exists, hold, snaps.iter().map(|x| format!("{}:{}", fwds[x.k].out_amt, x.seen)).collect::<Vec<_>>()));
+		}
+		out.lines.push((format!("fc {} {} {} {} {} {}", sn.seen, held_exists as u8, sn.sent as u8, sn.c_has as u8, sn.b_has as u8, if dropped { "drop" } else { "keep" }), "ok".into(),
+			format!("fc:{}:held={}:sent={}:{}", sn.seen, held_exists as u8, sn.sent as u8, if dropped { "drop" } else { "keep" }), true));
+	}
+	out.classes.push(format!("close:{}:blocker={}:htlcs={}", ["api", "peer-error", "bad-fulfill"][variant as usize], hold as u8, snaps.len()));
+	// ---- the chain: C claims what it can; one of the two commitments confirms --------------------------------------------
+	for k in 0..fwds.len() { if !claimed.contains(&k) && net.claimable[C].iter().any(|c| c.0 == fwds[k].hash) && rng.chance(4, 5) {
+		net.claimable[C].retain(|c| c.0 != fwds[k].hash); net.claim(fwds[k].pay); net.process_events(C); claimed.push(k); } }
+	net.q.remove(&(C, B));
+	if c_learns { for w in held_bc { net.q.entry((B, C)).or_default().push_back(w); } while net.queued(B, C) > 0 { net.deliver(B, C); } net.process_events(C); net.q.remove(&(C, B)); }
+	let b_tx = { let v = net.nodes[B].tx_broadcaster.txn_broadcasted.lock().unwrap(); v[bcast_before.min(v.len())..].iter().find(|t| t.input.len() == 1 && t.input[0].previous_output == b_commit.input[0].previous_output).cloned() };
+	let c_tx = latest_holder_commitment(net, C, c1);
+	let use_c = c_tx.is_some() && (b_tx.is_none() || rng.chance(1, 2));
+	let confirmed = if use_c { c_tx.unwrap() } else { match b_tx { Some(t) => t, None => { out.classes.push("close:no-commitment-to-mine".into()); return Ok(out); } } };
+	out.classes.push(format!("chain:{}-commitment-confirms", if use_c { "C" } else { "B" }));
+	let mut mined: Vec<Transaction> = vec![];
+	let mut spent: std::collections::BTreeSet<bitcoin::OutPoint> = Default::default();
+	let mut seen_b = bcast_before; let mut seen_c = 0usize;
+	let mine = |net: &mut Net, txs: Vec<Transaction>, mined: &mut Vec<Transaction>| {
+		for i in [B, C] { if txs.is_empty() { connect_blocks(&net.nodes[i], 1); } else { let refs: Vec<&Transaction> = txs.iter().collect(); mine_transactions(&net.nodes[i], &refs); } }
+		mined.extend(txs);
+		for i in [B, C, A, E] { net.pump(i); net.process_events(i); }
+		for _ in 0..6 {
+			let mut any = false;
+			net.q.remove(&(B, C)); net.q.remove(&(C, B));
+			for l in [(A, B), (B, A), (E, B), (B, E)] { while net.queued(l.0, l.1) > 0 { net.deliver(l.0, l.1); any = true; } }
+			for i in [A, B, E] { if net.nodes[i].node.needs_pending_htlc_processing() { net.forward(i); any = true; } net.process_events(i); }
+			if !any { break; }
+		}
+	};
+	for i in &confirmed.input { spent.insert(i.previous_output); }
+	mine(net, vec![confirmed.clone()], &mut mined);
+	let long = rng.chance(1, 3);
+	let rounds = if long { 330 } else { 14 };
+	for _ in 0..rounds {
+		let mut block: Vec<Transaction> = vec![];
+		let h = net.nodes[B].best_block_info().1;
+		for (node, seen) in [(B, &mut seen_b), (C, &mut seen_c)] {
+			let v: Vec<Transaction> = { let b = net.nodes[node].tx_broadcaster.txn_broadcasted.lock().unwrap(); let out = b[(*seen).min(b.len())..].to_vec(); *seen = b.len(); out };
+			for t in v {
+				if t.input.iter().any(|i| spent.contains(&i.previous_output)) { continue; }
+				if !t.input.iter().all(|i| mined.iter().any(|m| m.compute_txid() == i.previous_output.txid)) { continue; }
+				if t.lock_time.is_block_height() && t.lock_time.to_consensus_u32() > h + 1 { continue; }
+				for i in &t.input { spent.insert(i.previous_output); }
+				block.push(t);
+			}
+		}
+		mine(net, block, &mut mined);
+		let pending_up = net.nodes[B].node.list_channels().iter().any(|c| (c.channel_id == net.chans[c0].2 || c.channel_id == net.chans[c2].2) && !c.pending_inbound_htlcs.is_empty());
+		if !pending_up && !long { break; }
+		if !pending_up && mined.len() > 1 { break; }
+	}
+	// ---- accounting per forwarded HTLC: received upstream vs paid downstream ----------------------------------------------
+	let mut net_gain: i128 = 0; let mut all_resolved = true; let mut detail: Vec<String> = vec![];
+	for (k, f) in fwds.iter().enumerate() {
+		let up_ok = up_msg(net, f, 0, &["fulfill"]);
+		let up_fail = up_msg(net, f, 0, &["fail", "malformed"]);
+		if !up_ok && !up_fail { all_resolved = false; }
+		let onchain = mined.iter().any(|t| t.input.iter().any(|i| i.witness.iter().any(|w| w == &f.preimage.0[..])));
+		let offchain = claimed.contains(&k) && !onchain && (snaps.iter().any(|sn| sn.k == k && sn.seen == "rm-ok") || !snaps.iter().any(|sn| sn.k == k)) && net.trace[..close_pos].iter().any(|o| matches!(o, Obs::Msg { from: B, to: C, kind: "add", amt, .. } if *amt == f.out_amt));
+		let paid_down = onchain || offchain;
+		if up_ok { net_gain += f.in_amt as i128; }
+		if paid_down { net_gain -= f.out_amt as i128; }
+		detail.push(format!("{}:{}{}", f.out_amt, if up_ok { "claimed-upstream" } else if up_fail { "failed-upstream" } else { "pending-upstream" }, if onchain { "+taken-on-chain-downstream" } else if offchain { "+fulfilled-downstream" } else { "" }));
+		// ---- oracle (b), per HTLC: failed back upstream, paid out downstream
+		if up_fail && paid_down { out.oracle.push(format!("close scenario {}: Σ value_to_self of the forwarder (incl. the on-chain outcome of the closed channel) decreased after resolution: HTLC of {} msat was failed backwards upstream and {} by the next hop (close by {}, {}'s commitment confirmed, RAA blocker: {}, held update: {})",
+			sc, f.out_amt, if onchain { "claimed on chain with the preimage" } else { "fulfilled" }, vname, if use_c { "C" } else { "B" }, hold, held_exists)); }
+		out.classes.push(format!("outcome:{}{}", if up_ok { "claimed-upstream" } else if up_fail { "failed-upstream" } else { "pending-upstream" }, if onchain { "+on-chain-downstream" } else if offchain { "+off-chain-downstream" } else { "" }));
+	}
+	let up_after = up_bal(net);
+	if all_resolved {
+		let real_up: i128 = up_after as i128 - up_before as i128;
+		let paid: i128 = real_up - net_gain;   // what the per-HTLC view says was paid downstream is already inside net_gain
+		let _ = paid;
+		if net_gain < 0 { out.oracle.push(format!("close scenario {}: Σ value_to_self of the forwarder decreased by {} msat after resolution ({:?})", sc, -net_gain, detail)); }
+		let want_up: i128 = fwds.iter().filter(|f| up_msg(net, f, 0, &["fulfill"])).map(|f| f.in_amt as i128).sum();
+		if real_up != want_up { out.oracle.push(format!("close scenario {}: B's upstream value_to_self changed by {} msat but the upstream fulfils add up to {} ({:?})", sc, real_up, want_up, detail)); }
+		out.classes.push("resolution:all-upstream-resolved".into());
+	} else { out.classes.push("resolution:some-upstream-pending".into()); }
+	if std::env::var("VERIF_TRACE").map(|v| v == "all" || v == sc.to_string()).unwrap_or(false) {
+		eprintln!("=== close scenario {} hold={} variant={} close_pos={} detail={:?}", sc, hold, vname, close_pos - p0, detail);
+		for (n, o) in net.trace[p0..].iter().enumerate() { if !matches!(o, Obs::Balance { .. }) { eprintln!("  {} {}", n, fmt_obs(o)); } }
+	}
+	Ok(out)
+}
+
 fn b_balance(net: &Net, c: usize) -> u64 {
 	net.trace.iter().rev().find_map(|o| if let Obs::Balance { node: B, chan, value_to_self_msat } = o { if *chan == c { Some(*value_to_self_msat) } else { None } } else { None }).unwrap_or(0)
 }
@@ -717,6 +1001,26 @@ fn main() {
 			if let Err(p) = r { rec.oracle_fail(format!("admit scenario {} (seed {}) panicked: {}", sc, args.seed, p.chars().take(200).collect::<String>())); }
 		}
 		rec.notes.insert("rule".into(), "3 real nodes A-B-C per scenario, B's forwarding_fee_base_msat / forwarding_fee_proportional_millionths / cltv_expiry_delta drawn per scenario, B's chain tip 0..120 blocks ahead of A's; per case a hand-built route with the first-hop fee at required / -1 / +1 / 0, the first-hop cltv delta at configured / -1 / +1 / 47 / 48, and the final delta placing outCltv around height+LATENCY_GRACE_PERIOD_BLOCKS, inCltv around height+HTLC_FAIL_BACK_BUFFER and height+CLTV_FAR_FAR_AWAY; observed end-to-end (B→C add vs HTLCHandlingFailed local reason); distinct by op text".into());
+	} else if args.model == "c02close" {
+		let n_scen = if args.thorough { 1500 } else { 170 } * args.scale as usize;
+		let mut class_hist: BTreeMap<String, u64> = BTreeMap::new();
+		let only: Option<usize> = std::env::var("VERIF_ONLY").ok().and_then(|v| v.parse().ok());
+		for sc in 0..n_scen {
+			let mut sub = Rng::new(rng.next());
+			if only.map(|o| o != sc).unwrap_or(false) { continue; }
+			match guarded(std::panic::AssertUnwindSafe(|| close_scenario(&mut sub, sc, args.thorough))) {
+				Ok(Ok(out)) => {
+					for (k, (op, res, class, nt)) in out.lines.into_iter().enumerate() { rec.case(&format!("{} @s{}.{}", op, sc, k), &res, &class, nt); }
+					for o in out.oracle { rec.oracle_fail(o); }
+					for c in out.classes { *class_hist.entry(c).or_insert(0) += 1; }
+				},
+				Ok(Err(e)) if e.starts_with("PANIC ") => rec.oracle_fail(format!("close scenario {} (seed {}) panicked: {}", sc, args.seed, e.chars().take(300).collect::<String>())),
+				Ok(Err(e)) => { rec.discarded += 1; *class_hist.entry(format!("discard:{}", e.chars().take(50).collect::<String>())).or_insert(0) += 1; },
+				Err(p) => rec.oracle_fail(format!("close scenario {} (seed {}) panicked: {}", sc, args.seed, p.chars().take(300).collect::<String>())),
+			}
+		}
+		for (k, v) in class_hist { *rec.classes.entry(k).or_insert(0) += v; }
+		rec.notes.insert("rule".into(), "4 real nodes A-B-C, E-B (legacy channels); 1-2 forwarded HTLCs committed on both links, then a random schedule (single message deliveries over all links, monitor-update completions with or without the inbound edge's preimage update held back as RAA blocker, C's claims, further forwards from E or A that land in the holding cell / a sent or a held commitment) cut at a random point by a force-close of B-C (API call, error message from C, invalid update_fulfill_htlc from C); per HTLC on B-C at that instant one case (distinct by scenario and HTLC); afterwards C's or B's commitment is mined, C claims on chain, 1/3 of the scenarios run until the timeouts".into());
 	} else if args.model == "c02hop" {
 		let (n_scen, n_cases) = if args.thorough { (60, 400) } else { (14, 150) };
 		for sc in 0..n_scen * args.scale as usize {
